@@ -38,9 +38,33 @@ CATS = {
 }
 
 
+def piecewise(rng):
+    """durations that depend on a symbol only through a piecewise-constant operation (zero derivative)."""
+    c = rng.choice([x for x in CATS if x != "literal"])
+    e = CATS[c](rng)
+    form = rng.choice(["if-condition", "floor", "ceil", "sign", "comparison-product"])
+    p = var("p1")
+    if form == "if-condition":
+        d = ("if", [(("bin", ">", e, num(1.5)), p)], ("bin", "*", num(2), p))
+    elif form == "floor":
+        d = ("bin", "+", p, ("call", "floor", [("bin", "/", e, num(10))]))
+    elif form == "ceil":
+        d = ("bin", "+", p, ("call", "ceil", [("bin", "/", e, num(7))]))
+    elif form == "sign":
+        d = ("bin", "*", p, ("bin", "+", num(2), ("call", "sign", [e])))
+    else:
+        d = ("bin", "+", p, ("if", [(("bin", "<", e, num(2.5)), num(1))], num(3)))
+    return d, {c, "parameter"}, form
+
+
 def duration(rng):
     """-> (expr, set of categories)"""
     k = rng.random()
+    if k < 0.2:
+        d, cats, form = piecewise(rng)
+        duration.last_form = form
+        return d, cats
+    duration.last_form = None
     if k < 0.55:
         c = rng.choice(list(CATS))
         e = CATS[c](rng)
@@ -85,11 +109,16 @@ def gen_case(rng):
             break_after = False
         for c in cats:
             tags.add("duration:" + c)
+        if getattr(duration, "last_form", None):
+            tags.add("duration-piecewise:" + duration.last_form)
         if break_after:
             break
     expect_ok = all(c <= ALLOWED for (_, _, c, _) in delays)
     text = "model M\n" + "\n".join(decls) + "\nequation\n" + "\n".join(eqs) + "\nend M;\n"
     options = {}
+    if rng.random() < 0.3:
+        options["cache"] = True
+        tags.add("option:cache(repeated calls)")
     if rng.random() < 0.4:
         options["expand_vectors"] = True
         tags.add("option:expand_vectors")
@@ -141,11 +170,23 @@ def check(ctx, text, delays, expect_ok, options, tags, n, rng, k):
         with open(os.path.join(folder, "M.mo"), "w") as f:
             f.write(text)
         err = None
-        try:
-            model = api.transfer_model(folder, "M", dict(options))
-            fdel = model.delay_arguments_function
-        except Exception as e:
-            err = e
+        # with the cache option the verdict must be the same on every call (a rejected model must not
+        # leave anything behind that a later call accepts)
+        for attempt in range(3 if options.get("cache") else 1):
+            err = None
+            try:
+                model = api.transfer_model(folder, "M", dict(options))
+                fdel = model.delay_arguments_function
+            except Exception as e:
+                err = e
+            if attempt == 0:
+                first_err = err
+            elif (err is None) != (first_err is None):
+                ctx.violation("C22:verdict-changes-on-repeated-call:%s" % ("accepted-later" if err is None else "rejected-later"),
+                              "call 1 %s, call %d %s (cache option)\n%s" % (
+                                  "accepted" if first_err is None else "raised %r" % (first_err,), attempt + 1,
+                                  "accepted" if err is None else "raised %r" % (err,), text), case)
+                return
     finally:
         shutil.rmtree(folder, ignore_errors=True)
     bad_cats = sorted({c for d in delays for c in d[2] if c not in ALLOWED})
